@@ -41,11 +41,14 @@ decoder("multidecoder.decoders.path.find_path", ["C01", "C03", "C11"])
 T = lambda t, o: {"type": f"node.type == {t!r}", "label": f"node.obfuscation == {o!r}"}  # noqa: E731
 
 contract("multidecoder.decoders.filename.find_executable_name", props=["C01", "C03", "C11"], returns="list[Node]", fresh_nodes=True,
-         ensures_each={**EACH, **T("executable.filename", ""), "value-is-the-text-covered": "node.value == data[node.start : node.end]"}, ensures={"fresh": FRESH})
+         ensures_each={**EACH, **T("executable.filename", ""), "value-is-the-text-covered": "node.value == data[node.start : node.end]"},
+         ensures={"fresh": FRESH, "one-node-per-match": "len(result) == nmatches(EXECUTABLE_RE, data)"})
 contract("multidecoder.decoders.filename.find_library", props=["C01", "C03", "C11"], returns="list[Node]", fresh_nodes=True,
-         ensures_each={**EACH, **T("executable.filename", ""), "value-is-the-text-covered": "node.value == data[node.start : node.end]"}, ensures={"fresh": FRESH})
+         ensures_each={**EACH, **T("executable.filename", ""), "value-is-the-text-covered": "node.value == data[node.start : node.end]"},
+         ensures={"fresh": FRESH, "one-node-per-match": "len(result) == nmatches(LIBRARY_RE, data)"})
 contract("multidecoder.decoders.path.find_path", props=["C01", "C03", "C11"], returns="list[Node]", fresh_nodes=True,
-         ensures_each={**EACH, **T("path", ""), "value-is-the-text-covered": "node.value == data[node.start : node.end]"}, ensures={"fresh": FRESH})
+         ensures_each={**EACH, **T("path", ""), "value-is-the-text-covered": "node.value == data[node.start : node.end]"},
+         ensures={"fresh": FRESH, "one-node-per-match": "len(result) == nmatches(PATH_RE, data)"})
 
 # ---- hexadecimal (C13): the node covers the digit run and its value is the bytes spelled by the digits
 decoder("multidecoder.decoders.hex.find_hex", ["C01", "C03", "C13"],
@@ -55,11 +58,13 @@ decoder("multidecoder.decoders.hex.find_hex", ["C01", "C03", "C13"],
 
 # ---- javascript unescape (C14)
 decoder("multidecoder.decoders.javascript.find_unescape", ["C01", "C03", "C14"],
-        each={**T("string", "function.unescape"), "value-is-the-percent-decoded-argument": "node.value == unquote(data[node.start + 10 : node.end - 2])"})
+        each={**T("string", "function.unescape"), "value-is-the-percent-decoded-argument": "node.value == unquote(data[node.start + 10 : node.end - 2])"},
+        ensures={"one-node-per-match": "len(result) == nmatches(UNESCAPE_RE, data)"})
 
 # ---- utf-16 (C14)
 decoder("multidecoder.decoders.codec.find_utf16", ["C01", "C03", "C14"],
-        each={**T("", "codec.uft-16"), "value-is-utf8-of-the-utf16-text-covered": "node.value == utf8(utf16(data[node.start : node.end]))"})
+        each={**T("", "codec.uft-16"), "value-is-utf8-of-the-utf16-text-covered": "node.value == utf8(utf16(data[node.start : node.end]))"},
+        ensures={"one-node-per-match": "len(result) == nmatches(UTF16_RE, data)"})
 
 # ---- chr (C14)
 decoder("multidecoder.decoders.chr.find_chr", ["C01", "C03", "C14"], collector="out", each={**T("string", "function.chr")})
